@@ -14,7 +14,7 @@ use ark_relations::r1cs::ConstraintMatrices;
 use cfg_if::cfg_if;
 use color_eyre::{Report, Result};
 
-use crate::circuit::iden3calc::calc_witness;
+use crate::circuit::iden3calc::{calc_witness, try_calc_witness};
 
 #[cfg(feature = "arkzkey")]
 use {
@@ -89,6 +89,15 @@ pub fn calculate_rln_witness<I: IntoIterator<Item = (String, Vec<Fr>)>>(
     graph_data: &[u8],
 ) -> Vec<Fr> {
     calc_witness(inputs, graph_data)
+}
+
+/// Same as [`calculate_rln_witness`], but returns an error (instead of panicking) when the inputs
+/// do not fit the graph, e.g. a Merkle path whose length differs from the circuit's tree height.
+pub fn try_calculate_rln_witness<I: IntoIterator<Item = (String, Vec<Fr>)>>(
+    inputs: I,
+    graph_data: &[u8],
+) -> Result<Vec<Fr>> {
+    try_calc_witness(inputs, graph_data).map_err(Report::msg)
 }
 
 #[cfg(not(target_arch = "wasm32"))]
